@@ -216,14 +216,14 @@ MANIFEST_TEXT['C04'] = (
 
 PROPS['C13'] = P(
     ['state_is_persistent_and_private', 'state_invariant_everywhere', 'body_logs_the_stored_state', 'assertion_guards_every_body',
-     'history_matches_log', 'callback_never_missing'],
+     'history_matches_log', 'state_is_dropped_at_most_once', 'callback_never_missing'],
     ['recursion', 'lifetime', 'mixed', 'xw'], 'state', determined=True,
     assumes=['the state is the pair (Local<u32> run counter, counter captured by the closure) of the harness bodies; Bevy\'s own system state (query caches, change ticks) is not modelled',
-             'partial: "dropped exactly once when the system dies" is checked by the correspondence (dropsys lines) and the m_state monitor, not by a theorem',
+             'the state is dropped at most once and a live record was never dropped (closed invariant DInv over the ghost drop history); that it IS dropped when the system dies (no leak) is checked by the correspondence (dropsys lines) and the m_state monitor',
              'an id is installed once (ghost set `spawned`): the harness ignores a second spawn under a bound id, as the model does'])
 MANIFEST_TEXT['C13'] = (
- "Machine-checked for every program and every system t (closed invariant of every interpreter step, hence of every recursion pattern and sequence of trees): the (Local, captured) pairs logged by the runs of t are (0,0), (1,1), ..., (n-1,n-1) in order and, while the state exists, both stored counters equal n — the state is created once with (0,0), advanced only by t's own body, never reset, re-created or touched by another system's run; the body logs exactly the stored pair (proved-unreachable assertion) and the callback is never missing when a command runs it. Tied to /repo by differential runs comparing the Local and captured counters printed by every run of every system and the drop of each system's state, plus the m_state monitor.",
- "Trusted: Coq kernel; model faithfulness (differential); Bevy Local/closure-capture semantics as modelled. Partial: exactly-once drop of the state is correspondence + monitor only.",
+ "Machine-checked for every program and every system t (closed invariant of every interpreter step, hence of every recursion pattern and sequence of trees): the (Local, captured) pairs logged by the runs of t are (0,0), (1,1), ..., (n-1,n-1) in order and, while the state exists, both stored counters equal n — the state is created once with (0,0), advanced only by t's own body, never reset, re-created or touched by another system's run; the body logs exactly the stored pair (proved-unreachable assertion), the state is dropped at most once and never while its record is live, and the callback is never missing when a command runs it. Tied to /repo by differential runs comparing the Local and captured counters printed by every run of every system and the drop of each system's state, plus the m_state monitor.",
+ "Trusted: Coq kernel; model faithfulness (differential); Bevy Local/closure-capture semantics as modelled. The state being dropped when the system dies (no leak) is correspondence + monitor.",
  "Coq proof (closed per-system invariant over a ghost run history, proved-unreachable assertion) + model/implementation correspondence + monitor", "DESIGN.md §5 C13")
 
 PROPS['C05'] = P(
